@@ -208,6 +208,11 @@ func dsReplayTrace(e *dsExplorer, trace []dsRepEv, each func(n *dsNode, ev dsEv,
 			e.w.mtx.Lock()
 			id, ok := e.w.msgByKey[re.Key]
 			e.w.mtx.Unlock()
+			if !ok && e.w.ensureVoteByKey(re.Key) {
+				e.w.mtx.Lock()
+				id, ok = e.w.msgByKey[re.Key]
+				e.w.mtx.Unlock()
+			}
 			if !ok {
 				panic("dsim replay: message not yet created at this point of the trace: " + re.Key)
 			}
